@@ -405,6 +405,12 @@ impl ActorCell {
         super::supervision::SupervisionTree::link(self, supervisor)
     }
 
+    /// verif: see `actor_id::verif_set_next_local_id`
+    #[cfg(feature = "verif")]
+    pub fn verif_set_next_local_id(next: u64) -> u64 {
+        super::actor_id::verif_set_next_local_id(next)
+    }
+
     /// The link made by `start` for the actor being started (see
     /// [super::supervision::SupervisionTree::link_starting])
     pub(crate) fn try_link_starting(&self, supervisor: ActorCell) -> bool {
